@@ -120,6 +120,13 @@ class Reductions(Contract):
         for fm in fms[:2]:
             for fn in ('sum', 'max'):
                 yield dict(fn=fn, fmt=list(fm), shape=[2], axis=None, route='np', with_out=True)
+        # sort over all elements (axis=None: flattened) and along the first axis
+        for fm in fms[:2]:
+            for shape in ((3,), (2, 2)):
+                yield dict(fn='sort', fmt=list(fm), shape=list(shape), axis=None, route='np')
+                yield dict(fn='sort', fmt=list(fm), shape=list(shape), axis=None, route='func')
+            for route in ('np', 'method'):
+                yield dict(fn='sort', fmt=list(fm), shape=[2, 2], axis=0, route=route)
         # 2-d operands in Fortran (column-major / transposed) memory order: results are positional, not memory-order dependent
         for fm in (fms[:1] if tier == 'quick' else fms[:3]):
             for shape in ((2, 2), (2, 3)):
@@ -173,6 +180,8 @@ class Reductions(Contract):
         elif fn == 'sort':
             if route == 'np':
                 z = np.sort(x, axis=axis)
+            elif route == 'func':
+                z = P.functions.sort(x, axis=axis)
             else:
                 z = x.deepcopy(); z.sort(axis=axis)
         elif fn == 'transpose':
@@ -237,9 +246,25 @@ class Reductions(Contract):
             def srt(line):
                 if len(line) == 1: return line
                 if len(line) == 2: return [mmin(line), mmax(line)]
-                lo_, hi_ = mmin(line), mmax(line)
-                return [lo_, msum(line) - lo_ - hi_, hi_]
-            if len(shape) == 1:
+                if len(line) == 3:
+                    lo_, hi_ = mmin(line), mmax(line)
+                    return [lo_, msum(line) - lo_ - hi_, hi_]
+                a = list(line)                      # longer lines: a compare-exchange (bubble) network
+                for i in range(len(a)):
+                    for j in range(len(a) - 1 - i):
+                        a[j], a[j + 1] = mmin([a[j], a[j + 1]]), mmax([a[j], a[j + 1]])
+                return a
+            if len(shape) == 1 and axis is None:
+                eshape, exp = shape, srt(vals)
+            elif axis is None:
+                eshape, exp = (len(vals),), srt(vals)          # np.sort(x, axis=None): the flattened array, sorted
+            elif len(shape) == 2 and axis == 0:
+                eshape = shape; exp = [None] * len(vals)
+                for cidx in range(shape[1]):
+                    col = srt([vals[r * shape[1] + cidx] for r in range(shape[0])])
+                    for r in range(shape[0]):
+                        exp[r * shape[1] + cidx] = col[r]
+            elif len(shape) == 1:
                 eshape, exp = shape, srt(vals)
             else:
                 eshape = shape; exp = []
